@@ -444,11 +444,13 @@ def choose(rng, c, n, span, op):
         return rng.choice(['A', 'B', 'C', 'D', 'lags']), rng.choice([None, None, float, int, bool, str, '<U1', '<U3', 'U8', np.float32, np.int16, np.uint8])
     if op == 'attr':
         return (rng.choice(names) if names else 'A'), None
-    if op == 'replace':
-        return (rng.choice(names + ['ZZ', 'Xx']) if names else 'ZZ'), None
-    if op == 'item':
-        return rng.choice(names + ['ZZ']) if names else 'ZZ', None
     not_variables = ['ZZ', 'index', 'span', 'names', 'NAMES', 'values', 'memo', 'strict', 'size', 'note', 'lags', 'copy']
+    # names of the object's own private entries without their underscore, class-level settings and members: not variables either
+    private = ['strict', 'attributes', 'LAGS', 'LEADS', 'dtype', 'span', 'index', 'submodels', 'check']
+    if op == 'replace':
+        return (rng.choice(names + ['ZZ', 'Xx'] + private[:rng.choice([0, 0, 9])]) if names else rng.choice(['ZZ'] + private)), None
+    if op == 'item':
+        return (rng.choice(names + ['ZZ'] + private[:rng.choice([0, 0, 9])]) if names else rng.choice(['ZZ'] + private)), None
     if op == 'label':
         return (rng.choice(names + not_variables[:rng.choice([0, 0, 12])]) if names else 'A'), rng.choice(span + [1999])
     if op == 'lslice':
